@@ -38,8 +38,8 @@ type State struct {
 	N      int // replay size / unicast buffer (-1 unlimited)
 	Status int
 	ErrTag string // which error terminated the subject (Status == Errored)
-	Mem    []int // replay buffer / unicast queue / [last] for behavior & async
-	HasMem bool  // behavior: always true; async: a value was published
+	Mem    []int  // replay buffer / unicast queue / [last] for behavior & async
+	HasMem bool   // behavior: always true; async: a value was published
 	Subs   map[int]*Sub
 	// DropBacklog reproduces the known unicast defect (queued values discarded when the
 	// subject terminates without a subscriber); used only to classify violations.
